@@ -8,6 +8,7 @@ import (
 	"sync"
 	"time"
 
+	"github.com/gorilla/websocket"
 	protocol "github.com/longportapp/openapi-protocol/go"
 	"github.com/longportapp/openapi-protocol/go/client"
 )
@@ -276,4 +277,109 @@ func runC13(r *Run) {
 		}
 	}
 	r.c13AcrossReconnect()
+	r.c13TextMessages()
+	r.c13TwoClients()
+}
+
+// c13TextMessages: a WebSocket peer (or gateway) may carry frames in text messages as well as binary ones.
+func (r *Run) c13TextMessages() {
+	var mu sync.Mutex
+	var got []string
+	s, err := openSessionPrep("ws", 1, func(tc *testClient) {
+		tc.cli.Subscribe(50, func(p *protocol.Packet) { mu.Lock(); got = append(got, string(p.Body)); mu.Unlock() })
+	})
+	if err != nil {
+		return
+	}
+	defer s.close()
+	pc := s.lk.(wsLink).pc
+	var want []string
+	for i := 0; i < 10; i++ {
+		b := fmt.Sprintf("m%d", i)
+		want = append(want, b)
+		kind := websocket.BinaryMessage
+		if i%2 == 1 {
+			kind = websocket.TextMessage
+		}
+		pc.wmu.Lock()
+		pc.c.WriteMessage(kind, pushFrame(1, 50, []byte(b)))
+		pc.wmu.Unlock()
+	}
+	waitUntil(2*time.Second, func() bool { mu.Lock(); defer mu.Unlock(); return len(got) >= len(want) })
+	mu.Lock()
+	defer mu.Unlock()
+	if strings.Join(got, ",") != strings.Join(want, ",") {
+		r.violate(Violation{What: "push frames carried in WebSocket text messages were not all delivered in order", Case: "ws: 10 pushes, alternating binary and text messages", Impl: strings.Join(got, ","), Expect: strings.Join(want, ",")})
+	}
+	r.st.Evaluations++
+	r.count("c13.ws.text-messages")
+}
+
+// c13TwoClients: two clients of one process receive bursts at the same time (nothing may be shared between their
+// connections); every push must reach its own client's handler, in order.
+func (r *Run) c13TwoClients() {
+	const N = 1500
+	type side struct {
+		s   *session
+		mu  sync.Mutex
+		got []string
+	}
+	var sides [2]*side
+	for i := range sides {
+		sd := &side{}
+		tag := fmt.Sprintf("c%d", i)
+		s, err := openSessionPrep("tcp", 1, func(tc *testClient) {
+			tc.cli.Subscribe(50, func(p *protocol.Packet) { sd.mu.Lock(); sd.got = append(sd.got, string(p.Body)); sd.mu.Unlock() })
+		}, client.ReadQueueSize(4096))
+		if err != nil {
+			return
+		}
+		_ = tag
+		sd.s = s
+		sides[i] = sd
+	}
+	defer sides[0].s.close()
+	defer sides[1].s.close()
+	var wg sync.WaitGroup
+	for i, sd := range sides {
+		wg.Add(1)
+		go func(i int, sd *side) {
+			defer wg.Done()
+			var buf []byte
+			for k := 0; k < N; k++ {
+				buf = append(buf, pushFrame(1, 50, []byte(fmt.Sprintf("c%d-%05d-%s", i, k, strings.Repeat(string(rune('a'+i)), 40))))...)
+				if len(buf) > 3000 {
+					sd.s.lk.sendFrame(buf)
+					buf = nil
+				}
+			}
+			if len(buf) > 0 {
+				sd.s.lk.sendFrame(buf)
+			}
+		}(i, sd)
+	}
+	wg.Wait()
+	for i, sd := range sides {
+		waitUntil(3*time.Second, func() bool { sd.mu.Lock(); defer sd.mu.Unlock(); return len(sd.got) >= N })
+		sd.mu.Lock()
+		bad := ""
+		if len(sd.got) != N {
+			bad = fmt.Sprintf("%d of %d pushes delivered", len(sd.got), N)
+		} else {
+			for k, b := range sd.got {
+				if b != fmt.Sprintf("c%d-%05d-%s", i, k, strings.Repeat(string(rune('a'+i)), 40)) {
+					bad = fmt.Sprintf("delivery %d is %q", k, b)
+					break
+				}
+			}
+		}
+		drops := sd.s.tc.log.count("drop packet for channel full")
+		sd.mu.Unlock()
+		if bad != "" && drops == 0 {
+			r.violate(Violation{What: "with two clients receiving at the same time a client did not get exactly its own pushes in order although nothing overflowed: " + bad,
+				Case: fmt.Sprintf("two tcp clients, %d pushes each, sent concurrently; client %d", N, i)})
+		}
+	}
+	r.st.Evaluations++
+	r.count("c13.tcp.two-clients")
 }
